@@ -20,7 +20,8 @@ META = dict(
                 'design/export/reload/redesign and design-twice on the shape grammar of C08 and on shipped example networks; SimParams '
                 'snapshot before/after auto-design of a network containing a RamanFiber for several user settings',
     bounds=['symbolic settings within physical ranges; 3 line layouts; 120 shapes x automatic output VOA on/off; sim-params: 4 user settings',
-            'RamanFiber: 2 pumps with symbolic powers, symbolic output connector loss in [0, 3] dB and temperature'],
+            'RamanFiber: 2 pumps with symbolic powers, symbolic output connector loss in [0, 3] dB and temperature',
+            'pipeline grammar also in gain mode; Roadm export: node policy in {pch, psd, psw}, one per-degree target of each kind, symbolic values'],
     assumptions=['floats as reals; "same to the export\'s rounding" = within 5e-7 for gains (6 decimals), 5e-6 for tilt (5 decimals), '
                  '5e-7 km for lengths, 5e-7 dB/km for loss coefficients', 'JSON file I/O not involved (dicts passed in memory)'],
     stubs=[],
